@@ -9,6 +9,7 @@ CONSTANTS
   QSets <- QSetsDef
   BiasTrim = FALSE
   FinalAt = 0
+  ScriptMix = 0
   BigSize = 6
   SetFees <- SetFeesDef
 INIT InitObs
